@@ -3,7 +3,7 @@
 ALL = ["CreateGroup", "CreateObject", "AddData", "AddVisual", "AddComment", "AddFile", "CreateWithUid", "Rename", "SetFlag", "SetVal", "SetMeta", "Move", "MoveSame", "AddToGroup",
        "AddDataFails", "StripOpt", "SaveAs", "Helper", "Copy2", "Remove2", "ScrubData", "CreateDeferred", "PGWithUid",
        "RemoveFromGroup", "RemovePG", "RemoveViaWorkspace", "RemoveViaParent", "DropRef", "Collect", "Purge",
-       "LookupDead", "Copy", "Close", "Open", "CallClosed", "RemoveBlocked", "OpenAgain"]
+       "LookupDead", "Copy", "Close", "Open", "CallClosed", "RemoveBlocked", "OpenAgain", "SetType", "Copy2Data"]
 INV_ASBUILT = ["TypeOK", "DirtyOnlyInRW", "W2WellFormed", "ReopenEqualsLive", "LinksToNodes", "OneParent", "PGPropsAreChildren", "WriteThrough",
                "NoDanglingPG", "RegistryMatchesMemory"]
 PROPS = ["Footprint", "FrozenFile", "OptStaysStripped", "FreshOnlyWhenTaken"]
@@ -30,7 +30,7 @@ def minus(*drop):
 
 
 GC = ["DropRef", "Collect", "Purge", "LookupDead"]
-NEW = ["RemoveBlocked", "OpenAgain", "AddComment", "AddFile", "AddVisual", "SetMeta", "MoveSame", "AddDataFails", "StripOpt", "SaveAs", "Helper", "Copy2", "Remove2", "ScrubData", "CreateDeferred", "PGWithUid"]
+NEW = ["RemoveBlocked", "OpenAgain", "SetType", "Copy2Data", "AddComment", "AddFile", "AddVisual", "SetMeta", "MoveSame", "AddDataFails", "StripOpt", "SaveAs", "Helper", "Copy2", "Remove2", "ScrubData", "CreateDeferred", "PGWithUid"]
 BASE = minus("CreateWithUid", "CallClosed", *NEW)
 # --- C01: histories of create/assign/rename/move/copy/delete with close/re-open and GC points
 cfg("C01_quick", 1, 1, 1, 1, [a for a in BASE if a != "SetFlag"] + ["MoveSame", "CreateDeferred", "AddDataFails"], 6, names=("a",), vals=(1, 2))
@@ -72,13 +72,16 @@ cfg("C06_thorough", 2, 2, 2, 1, C06A + ["AddToGroup"], 6, names=("a",), vals=(1,
 # cross-workspace copies: identifiers kept when free in the target, fresh otherwise (also after freeing them again)
 C06X = ["CreateGroup", "CreateObject", "AddData", "AddToGroup", "Copy2", "Remove2", "RemoveViaWorkspace", "Copy"]
 cfg("C06x_quick", 1, 1, 1, 1, C06X, 8, names=("a",), vals=(1,))
-cfg("C06x_thorough", 2, 1, 2, 1, C06X + ["Close", "Open"], 6, names=("a",), vals=(1,))
+cfg("C06x_thorough", 2, 1, 2, 1, C06X + ["Close", "Open"], 8, names=("a",), vals=(1,))
 # --- C09: every single mutation applied to every reachable state; footprint; files with omitted optional attributes
 cfg("C09_quick", 1, 1, 1, 1, [a for a in BASE if a != "LookupDead"] + ["MoveSame", "StripOpt"], 6, names=("a", "b"), vals=(1, 2))
 # bystanders: several data sets (shared types), visual parameters, shallow copies, metadata
 cfg("C09by_quick", 0, 2, 2, 1, ["CreateObject", "AddData", "AddVisual", "Copy", "SetVal", "SetMeta", "Rename", "AddToGroup",
                                 "RemoveViaWorkspace", "Close", "Open"], 5, names=("a",), vals=(1, 2))
-cfg("C09_thorough", 2, 1, 2, 2, BASE + ["MoveSame", "StripOpt", "AddDataFails", "SetMeta", "AddVisual"], 5, names=("a", "b"), vals=(1, 2))
+# shared data types: copies share the type of their source; re-assigning the type of one data set leaves the others alone
+cfg("C09ty_quick", 0, 1, 3, 1, ["CreateObject", "AddData", "Copy", "SetType", "SetVal", "RemoveViaWorkspace", "Collect", "DropRef",
+                                "Close", "Open"], 8, names=("a",), vals=(1,))
+cfg("C09_thorough", 2, 1, 2, 2, BASE + ["MoveSame", "StripOpt", "AddDataFails", "SetMeta", "AddVisual", "SetType"], 5, names=("a", "b"), vals=(1, 2))
 # --- C11: close / abort at every point (also after a failed operation), calls on a closed workspace, re-open,
 #          save_as, fetch_active_workspace re-opening in another mode
 C11A = ["CreateGroup", "CreateObject", "AddData", "SetVal", "Rename", "RemoveViaWorkspace", "RemoveViaParent", "Close", "Open",
@@ -89,12 +92,17 @@ cfg("C11_thorough", 2, 1, 2, 1, C11A + ["Move", "Copy", "AddToGroup", "Collect",
 C12A = ["CreateGroup", "CreateObject", "AddData", "AddToGroup", "Copy", "SetVal", "SetMeta", "Rename", "Close", "Open"]
 cfg("C12_quick", 1, 2, 2, 1, C12A, 5, names=("a", "b"), vals=(1, 2))
 cfg("C12_thorough", 2, 2, 3, 2, C12A + ["SetFlag", "Move"], 5, names=("a", "b"), vals=(1, 2))
+# nested groups with differently named members, copied deep and shallow (options given to copy() are for the copied entity only)
+cfg("C12grp_quick", 2, 2, 1, 1, ["CreateGroup", "CreateObject", "Copy"], 5, names=("a", "b"), vals=(1,))
 # visual parameters and metadata of copies (aliasing between copy and source)
 cfg("C12vp_quick", 1, 2, 2, 1, ["CreateObject", "AddVisual", "AddData", "Copy", "SetMeta", "RemoveViaWorkspace", "Close", "Open"], 6,
     names=("a",), vals=(1, 2))
 C12X = ["CreateGroup", "CreateObject", "AddData", "AddToGroup", "Copy2", "Remove2", "SetVal", "Rename"]
 cfg("C12x_quick", 1, 1, 2, 1, C12X, 6, names=("a", "b"), vals=(1, 2))
-cfg("C12x_thorough", 2, 1, 2, 2, C12X + ["Close", "Open", "Copy"], 6, names=("a", "b"), vals=(1, 2))
+# copies out of a read-only source; a child whose identifier is taken in the target while its object's is free
+cfg("C12xd_quick", 0, 2, 1, 1, ["CreateObject", "AddData", "AddToGroup", "Copy2", "Copy2Data"], 8, names=("a",), vals=(1,))
+cfg("C12ro_quick", 0, 1, 1, 1, ["CreateObject", "AddData", "AddToGroup", "Copy2", "Copy2Data", "Close", "Open"], 8, names=("a",), vals=(1,))
+cfg("C12x_thorough", 2, 1, 2, 2, C12X + ["Close", "Open", "Copy", "Copy2Data"], 6, names=("a", "b"), vals=(1, 2))
 # --- random simulation with larger constants (thorough tiers): long behaviours, more entities
 cfg("Sim_all", 3, 2, 4, 2, minus("CallClosed"), 60, names=("a", "b"), vals=(1, 2))
 cfg("Sim_remove", 3, 2, 4, 2, C05A + ["RemoveFromGroup", "Move", "MoveSame", "CreateWithUid", "AddDataFails"], 60,
